@@ -703,7 +703,11 @@ func tpBytes(r *vh.Rand, server bool) []byte {
 		add(27+31*uint64(r.Intn(100)), r.Bytes(r.Intn(10)))
 	}
 	// faults
-	switch r.Pick(70, 8, 6, 6, 5, 5) {
+	switch r.Pick(64, 8, 6, 6, 5, 5, 6) {
+	case 6: // an uninterpreted (unknown / greased) id twice
+		id := []uint64{27 + 31*uint64(r.Intn(100)), 0x21 + uint64(r.Intn(1000)), 1<<62 - 1 - uint64(r.Intn(3))}[r.Intn(3)]
+		add(id, r.Bytes(r.Intn(6)))
+		add(id, r.Bytes(r.Intn(6)))
 	case 1: // duplicate
 		if len(ps) > 0 {
 			ps = append(ps, ps[r.Intn(len(ps))])
@@ -951,6 +955,61 @@ var detOps = func() []string {
 			ops = append(ops, lenbOp("lhdr", h.b, fp, seq(3, 0xe0)), lenbOp("acid", h.b, fp, seq(3, 0xe0)), lenbOp("vn", h.b, fp, seq(4, 0xe0)))
 		}
 	}
+	// one parser, several frames: ACK_ECN with counts, then plain ACK (same and other level / flags), then ACK_ECN again
+	for _, fl := range []string{"111", "000"} {
+		ops = append(ops, strings.Join([]string{
+			"dec A " + fl + " 3 030a01000005060700",
+			"dec A " + fl + " 3 020a010000",
+			"dec I " + fl + " 3 020a010000",
+			"dec A " + fl + " 3 0314020100020109",
+			"dec A " + fl + " 3 02140201000201",
+			"dec A " + fl + " 3 020a010000",
+			"dec A " + fl + " 3 030a01000005060700",
+			"dec H " + fl + " 3 0608021122",
+			"dec A " + fl + " 3 020a010000",
+		}, " ;; "))
+	}
+	// an id the implementation does not interpret, twice (adjacent, separated, equal or different values), both
+	// perspectives and session tickets; also every known id twice
+	for _, pers := range []string{"c", "s"} {
+		base := tpEnc(0x0f, seq(4, 1))
+		if pers == "s" {
+			base = append(base, tpEnc(0x00, seq(4, 9))...)
+		}
+		var dd []string
+		for _, id := range []uint64{0x42, 27, 27 + 31*7, 0x21, 0x3fff, 0x17f7586d2cb570, 1<<62 - 1} {
+			u1, u2 := tpEnc(id, seq(3, 1)), tpEnc(id, seq(2, 7))
+			mid := tpEnc(0x04, []byte{0x40, 0x64})
+			for _, b := range [][]byte{
+				append(append(append([]byte{}, base...), u1...), u1...),
+				append(append(append([]byte{}, base...), u1...), u2...),
+				append(append(append(append([]byte{}, u1...), base...), mid...), u2...),
+				append(append(append([]byte{}, u1...), u2...), base...),
+				append(append([]byte{}, base...), u1...), // once: accepted
+			} {
+				dd = append(dd, "tpdec "+pers+" "+hx(b))
+			}
+		}
+		for _, id := range append([]uint64{0x0c, 0x0f, 0x17f7586d2cb571}, numericIDs...) {
+			v := []byte{0x40, 0x64}
+			if id == 0x0c || id == 0x17f7586d2cb571 {
+				v = nil
+			} else if id == 0x0f {
+				v = seq(4, 1)
+			}
+			dd = append(dd, "tpdec "+pers+" "+hx(append(append(append([]byte{}, base...), tpEnc(id, v)...), tpEnc(id, v)...)))
+		}
+		ops = append(ops, strings.Join(dd, " ;; "))
+	}
+	{
+		var dd []string
+		for _, id := range []uint64{0x42, 27, 0x04, 0x0e} {
+			v := []byte{0x40, 0x64}
+			one := append([]byte{1}, tpEnc(id, v)...)
+			dd = append(dd, "tpstdec "+hx(append(append([]byte{}, one...), tpEnc(id, v)...)), "tpstdec "+hx(one))
+		}
+		ops = append(ops, strings.Join(dd, " ;; "))
+	}
 	for _, cl := range []int{0, 8, 20} {
 		sh := append([]byte{0x43}, seq(cl+4, 1)...)
 		ops = append(ops, fmt.Sprintf("cut shdr %d %s", cl, hx(sh)), fmt.Sprintf("cut cid %d %s", cl, hx(sh)))
@@ -981,7 +1040,12 @@ func (rn *runner) GenOp(r *vh.Rand, i int) string {
 		case c >= 10 && c <= 15:
 			return fmt.Sprintf("vsweep2 %d", []int{0x40, 0x7f, 0x3f, 0x80, 0x55, 0xc0}[c-10])
 		case c >= 16 && c < 16+len(detOps):
-			return detOps[c-16]
+			seq := strings.Split(detOps[c-16], " ;; ")
+			if len(seq) > 1 {
+				rn.push(seq[1:]...)
+				rn.fromGen = false
+			}
+			return seq[0]
 		case rn.thorough && c >= 16+len(detOps) && c < 16+len(detOps)+256:
 			return fmt.Sprintf("vsweep2 %d", c-16-len(detOps))
 		}
